@@ -50,6 +50,12 @@ CHECKS = {
         text="Instances with hostile values are serialised by the generated SDK to JSON and XML and read back, compared field by field; thousands of structurally mutated JSON value trees and XML texts are fed to the de-serialisers, which may only succeed or raise the SDK's DeserializationException.",
         note="XML round trip judged only for XML-1.0-representable text; float equality by == / nan; genuine defects of the pinned generated code are listed in known_findings.json (golden outputs forbid repair).",
     ),
+    "C28": dict(
+        category="exploration",
+        technique="differential monitor: real smoke.main.execute vs its components run independently on the same text, plus recorded-expectation replay",
+        text="Fixtures (accepted and rejected at every stage), generated models with mistyped invariants and schema-inference conflicts and text-mutated models: the smoke exit status must be 0 exactly when load_model, infer_constraints_by_class and the C# types/verification generation all succeed; failing reports are non-empty and name the model path; the five recorded smoke cases must reproduce expected_stderr.txt up to the path.",
+        note="Component re-run uses the same dummy-snippet convention as the smoke tool; crashes are left to C01/C02; main.execute(csharp/jsonschema) used only for one-directional cross-checks.",
+    ),
     "C29": dict(
         category="exploration",
         technique="identity-comparing monitor on descend/descend_once, recording visitors/transformers, accessor comparison against Python evaluation",
